@@ -220,7 +220,8 @@ def _fmt_cases(tier):
         for kind in TEXT_KINDS:
             for ext in (".txt", ".data", ".csv"):
                 for sep in SEPS:
-                    readers = ["table"] if ext == ".csv" else ["image", "table", "m-image", "m-charge"]
+                    readers = ["table", "table-v2"] if ext == ".csv" else ["image", "table", "m-image", "m-charge",
+                                                                            "image-v2", "table-v2"]
                     for rd in readers:
                         if rd == "m-image" and kind in ("neg", "exp", "mixed"):
                             continue            # negatives are clipped by Photon (documented, C13)
@@ -230,8 +231,8 @@ def _fmt_cases(tier):
                                       "reader": rd})
         for dt in BIN_DTYPES:
             for ext in (".npy", ".fits"):
-                for rd in ("image", "table", "m-image", "m-charge"):
-                    if ext == ".fits" and rd == "table":
+                for rd in ("image", "table", "m-image", "m-charge", "image-v2", "table-v2"):
+                    if ext == ".fits" and rd in ("table", "table-v2"):
                         continue
                     cases.append({"part": "fmt", "shape": list(shape), "kind": dt, "ext": ext, "sep": None,
                                   "reader": rd})
@@ -255,10 +256,10 @@ def _n_fmt(tier):
     per_shape = 0
     for kind in TEXT_KINDS:
         mimg = 0 if kind in ("neg", "exp", "mixed") else 1
-        per_shape += 5 * (2 + mimg + 1)                                   # .txt
-        per_shape += 5 * (2 + (0 if tier == "quick" else mimg + 1))       # .data
-        per_shape += 5                                                    # .csv
-    per_shape += len(BIN_DTYPES) * (4 + 3) + 1 + 3
+        per_shape += 5 * (4 + mimg + 1)                                   # .txt
+        per_shape += 5 * (4 + (0 if tier == "quick" else mimg + 1))       # .data
+        per_shape += 5 * 2                                                # .csv
+    per_shape += len(BIN_DTYPES) * (6 + 4) + 1 + 3
     return per_shape * len(FMT_SHAPES) + 2 * 5
 
 
@@ -308,6 +309,14 @@ def _run_fmt(case):
                 got = pyxel.load_image(path)
             elif rd in ("table", "fits-table"):
                 got = pyxel.load_table(path).to_numpy()
+            elif rd == "image-v2":
+                from pyxel.inputs import load_image_v2
+
+                got = np.asarray(load_image_v2(path, rename_dims={}).values)
+            elif rd == "table-v2":
+                from pyxel.inputs import load_table_v2
+
+                got = load_table_v2(path).to_numpy()
             else:
                 got = run_model("image" if rd == "m-image" else "charge", path, shape)
         except Exception as e:  # noqa: BLE001
